@@ -6,11 +6,12 @@ from concurrent.futures import ThreadPoolExecutor
 os.chdir("/verif")
 man = json.load(open("MANIFEST.json"))
 pids = [c["property_id"] for c in man["checks"]]
-ids = sys.argv[1:] or sorted(os.path.basename(d) for d in glob.glob("refactors/C*-*"))
+# ids: "Cxx-n" = refactors/Cxx-n (behaviour-preserving refactor), "twin-Cxx-n" = twins/Cxx-n (corrected twin of seed Cxx-n)
+ids = sys.argv[1:] or sorted(os.path.basename(d) for d in glob.glob("refactors/C*-*")) + sorted("twin-" + os.path.basename(d) for d in glob.glob("twins/C*-*"))
 assert subprocess.run(["git", "-C", "/repo", "status", "--porcelain", "--untracked-files=no"], capture_output=True, text=True).stdout.strip() == "", "/repo not clean"
 results = json.load(open("refactors/results.json")) if os.path.exists("refactors/results.json") else {}
 for s in ids:
-    d = f"refactors/{s}"
+    d = f"twins/{s[5:]}" if s.startswith("twin-") else f"refactors/{s}"
     ap = subprocess.run(["git", "-C", "/repo", "apply", "--whitespace=nowarn", os.path.abspath(f"{d}/patch.diff")], capture_output=True, text=True)
     if ap.returncode != 0:
         print(s, "PATCH DOES NOT APPLY", ap.stderr[-200:]); results[s] = {"error": "patch does not apply"}; continue
